@@ -1,12 +1,22 @@
 #!/usr/bin/env python3
-"""Prints the DESIGN.md 6.6 table from seeded/*/meta.json."""
-import json, glob, os
+"""Prints the DESIGN.md 6.6 table from seeded/*/meta.json; with --update rewrites it in DESIGN.md
+between the seeded-table markers."""
+import json, glob, os, sys
+root = os.path.join(os.path.dirname(os.path.abspath(__file__)), '..')
 rows = []
-for f in sorted(glob.glob(os.path.join(os.path.dirname(__file__), '..', 'seeded', '*', 'meta.json'))):
+esc = lambda t: t.replace('|', '\\|')
+for f in sorted(glob.glob(os.path.join(root, 'seeded', '*', 'meta.json'))):
     m = json.load(open(f))
-    esc = lambda t: t.replace('|', '\\|')
     caught = '; '.join(f"**{k}**: {esc(v)}" for k, v in m['caught_by'].items())
-    rows.append(f"| {m['id']} | {m['change']} | {m['needs_to_manifest']} | {caught} |")
-print("| seed | change (file / mechanism) | needs, in order to manifest | caught by (quick tier, seed 1) |")
-print("|---|---|---|---|")
-print('\n'.join(rows))
+    rows.append(f"| {m['id']} | {esc(m['change'])} | {esc(m['needs_to_manifest'])} | {caught} |")
+table = "| seed | change (file / mechanism) | needs, in order to manifest | caught by (quick tier, seed 1) |\n|---|---|---|---|\n" + '\n'.join(rows) + '\n'
+if '--update' in sys.argv:
+    p = os.path.join(root, 'DESIGN.md')
+    s = open(p).read()
+    a = s.index('<!-- seeded-table:begin')
+    a = s.index('\n', a) + 1
+    b = s.index('<!-- seeded-table:end -->')
+    open(p, 'w').write(s[:a] + table + s[b:])
+    print(f"{len(rows)} rows written")
+else:
+    sys.stdout.write(table)
